@@ -187,6 +187,41 @@ def _levels_and_arrow(ctx: Ctx, rng):
     ctx.count("levels-arrow", f"{route}/{event}")
 
 
+def _kind_flips(ctx: Ctx, rng):
+    """kind changes that are easy to overlook: a text column arriving as numbers, as an all-missing float column, as booleans; a numeric
+    column arriving as text -- always the encoding error, under every null policy, never a matrix"""
+    import numpy as np
+    import pandas as pd
+    from formulaic import model_matrix
+    from formulaic.errors import FactorEncodingError
+    train = pd.DataFrame({"A": pd.Series(list("abcabc"), dtype=object), "x": [1.0, 2.0, 3.0, 4.0, 5.0, 6.0]})
+    form = rng.choice(["A + x", "A:x", "x + A:x", "0 + A", "x + A"])
+    na = rng.choice(["drop", "ignore", "raise"])
+    flip = rng.choice(["text->all-nan", "text->float", "text->int", "num->text", "text->nan-and-number"])
+    if flip == "num->text" and "x" not in form.replace("0 + A", ""):
+        flip = "text->float"
+    new = {"text->all-nan": {"A": [np.nan, np.nan, np.nan], "x": [1.0, 2.0, 3.0]}, "text->float": {"A": [1.5, 2.5, 1.5], "x": [1.0, 2.0, 3.0]},
+           "text->int": {"A": [1, 2, 1], "x": [1.0, 2.0, 3.0]}, "num->text": {"A": ["a", "b", "c"], "x": ["p", "q", "p"]},
+           "text->nan-and-number": {"A": [np.nan, 2.0, np.nan], "x": [1.0, 2.0, 3.0]}}[flip]
+    rp = {"kind": "kind-flip", "formula": form, "flip": flip, "na_action": na}
+    ctx.oracle_runs += 1
+    try:
+        spec = model_matrix(form, train, na_action=na).model_spec
+    except Exception as e:
+        ctx.fail(f"{form!r}: {type(e).__name__}: {e}", rp)
+        return
+    try:
+        with warnings.catch_warnings():
+            warnings.simplefilter("ignore")
+            got = spec.get_model_matrix(pd.DataFrame(new))
+        ctx.fail(f"{form!r} fitted on a text column A / numeric x, re-used on {new} ({flip}, na_action={na}): a matrix of shape {got.shape} came back instead of the encoding error", rp)
+    except FactorEncodingError:
+        pass
+    except Exception as e:
+        ctx.fail(f"{form!r} re-used on {new} ({flip}): {type(e).__name__} instead of the encoding error: {str(e)[:150]}", rp)
+    ctx.count("kind-flips", flip)
+
+
 def run(ctx: Ctx):
     from formulaic import model_matrix
     from formulaic.errors import FactorEncodingError, DataMismatchWarning
@@ -264,6 +299,8 @@ def run(ctx: Ctx):
         _multipart(ctx, rng)
     for _ in range(ctx.n(80, 800)):
         _levels_and_arrow(ctx, rng)
+    for _ in range(ctx.n(60, 600)):
+        _kind_flips(ctx, rng)
     ctx.run_cases("pairs", c04.RIMPORTS, "", "rcase", "chk_replay", lits, descr, shard=150)
 
 
